@@ -1,5 +1,6 @@
 """C11 — curve types: the decoder clause only (checked decoders reject off-curve / out-of-subgroup / non-canonical encodings)."""
-from ..core import norm, short, walk, callee
+import re
+from ..core import norm, short, walk, callee, mir_callee
 from ..engines import checked, hirq
 from .. import tables
 
@@ -10,7 +11,8 @@ def run(ck):
         'Decides only the decoder clause: compressed decoding reaches on-curve and torsion-free checks (G1, G2), uncompressed decoding reaches on-curve (G1) / '
         'on-curve+torsion (G2), GroupEncoding::from_bytes goes through the checked decoder, raw decoding goes through the checked uncompressed decoder, '
         'coordinate constructors check the curve equation, Jubjub subgroup decoding reaches the torsion test, and no checked decoder unwraps. '
-        'The group law, mixed additions and coordinate-system consistency are numerical and NOT decided.')
+        'Of the group-law clause only the FFI discipline is decided (R3/R4): which blst point routine each G1/G2 operator delegates to — the complete add-or-double '
+        'entry points, identically for the two sibling groups.  The arithmetic itself and coordinate-system consistency are numerical and NOT decided.')
     ck.rule('C11.R1', 'CHECKED(curve decoders): call closure contains the listed validators, results live, no unwrap')
     n = checked.check_rows(ck, w, 'C11.R1', tables.C11_DECODERS)
     ck.floor('C11.R1', 'decoder/validator obligations', n, 25)
@@ -26,3 +28,58 @@ def run(ck):
             in_u = any(x.endswith(v) for x in pu)
             ck.record('C11.R2', f'{chk}|adds:{v}', in_c and not in_u, f'{v} only in the checked decoder',
                       f'{v}: checked={in_c}, unchecked twin={in_u} — the checked decoder must add the validator the twin skips')
+
+    # ------------------------------------------------------------------ R3 / R4: FFI discipline of the blst-backed groups
+    ck.rule('C11.R3', 'sibling agreement G1 ~ G2: every function of bls12_381/g1.rs and its namesake in g2.rs delegate to the same blst point routines '
+                      '(after renaming p1/p2, g1/g2); one-sided functions are tabled')
+    ck.rule('C11.R4', 'complete-addition discipline: no workspace function calls an incomplete blst point addition (blst_p{1,2}_add, blst_p{1,2}_add_affine: '
+                      'undefined for equal operands); every addition operator delegates to an add_or_double entry point')
+    INCOMPLETE = re.compile(r'blst::blst_p[12]_add(_affine)?$')
+    assert INCOMPLETE.search('blst::blst_p2_add_affine') and INCOMPLETE.search('blst::blst_p1_add') and not INCOMPLETE.search('blst::blst_p1_add_or_double_affine')
+    ffi = {}
+    nb = 0
+    for nid0 in w.mir_index():
+        for b in w.mir_bodies(nid0):
+            if b['_crate'] != 'curves' or '::tests::' in b['_xid']:
+                continue
+            nb += 1
+            for blk in b['blocks']:
+                t = blk['t']
+                if t.get('k') != 'call':
+                    continue
+                c = mir_callee(t) or ''
+                if INCOMPLETE.search(c):
+                    ck.bad('C11.R4', f'{b["_xid"]}|{short(c)}', f'{b["_xid"]} calls {c}, which is not defined for equal operands (P + P): the group law fails on the doubling case',
+                           f'{b["file"]}:{b.get("line", 0)}')
+                if re.match(r'(<)?blst::blst_p[12]\b|blst::blst_p[12]_', c) and 'bls12_381/g' in b['file']:
+                    ffi.setdefault(b['_xid'], set()).add(c)
+    ck.floor('C11.R4', 'curves MIR bodies scanned', nb, 1500)
+
+    def gen(sx):
+        return re.sub(r'\bG[12](Affine|Projective|Prepared|Compressed|Uncompressed)', r'GX\1', sx.replace('::g1::', '::gX::').replace('::g2::', '::gX::'))
+
+    def genc(c):
+        return re.sub(r'blst_p[12]', 'blst_pX', c).replace('_in_g1', '_in_gX').replace('_in_g2', '_in_gX')
+    sides = {'1': {}, '2': {}}
+    for x, cs in ffi.items():
+        side = '1' if ('::g1::' in x) else '2'
+        sides[side][gen(x)] = (x, {genc(c) for c in cs})
+    nadd = 0
+    for k in sorted(set(sides['1']) | set(sides['2'])):
+        a, b2 = sides['1'].get(k), sides['2'].get(k)
+        if a is None or b2 is None:
+            only = (a or b2)[0]
+            tab = tables.C11_ONE_SIDED.get(only)
+            ck.record('C11.R3', f'{only}:one-sided', tab is not None, 'tabled: ' + str(tab),
+                      f'{only} delegates to blst point routines but its sibling in the other group does not (or no longer exists): the two groups are maintained as twins')
+            continue
+        ck.record('C11.R3', f'{k}', a[1] == b2[1], f'both delegate to {sorted(short(c) for c in a[1])}',
+                  f'{a[0]} delegates to {sorted(a[1])} but {b2[0]} delegates to {sorted(b2[1])}: sibling implementations of one operator must use the same routine')
+        for x, cs in (a, b2):
+            adds = [c for c in cs if '_add' in c]
+            if adds:
+                nadd += 1
+                ck.record('C11.R4', f'{x}:add-or-double', all('add_or_double' in c for c in adds), 'delegates to the complete add-or-double routine',
+                          f'{x} adds through {adds}: not the complete add-or-double routine')
+    ck.floor('C11.R3', 'sibling pairs', len(set(sides['1']) & set(sides['2'])), 24)
+    ck.floor('C11.R4', 'addition operators', nadd, 8)
